@@ -58,6 +58,25 @@ def gen(rng, tier):
         else:
             spec = lc.random_circuit(rng, max_ops=12, p_marker=0.3)
         inputs.append({"kind": "sim", "spec": spec, "num_traj": rng.choice([1, 1, 3, 50, 1000])})
+    # wide circuits: several independent sub-circuits advance side by side, so one DAG front layer holds two-qubit gates
+    # of both bond parities far apart, with unequal entanglement on the bonds between them (3 brickwork steps)
+    for _ in range({"quick": 3, "thorough": 20, "search": 8}.get(tier, 3)):
+        n = 8
+        ops = []
+        for q in range(n):
+            ops.append({"op": "g1", "name": "ry", "q": q, "params": [rng.uniform(0.2, 2.9)]})
+            ops.append({"op": "g1", "name": "rz", "q": q, "params": [rng.uniform(0.2, 2.9)]})
+
+        def two(q):
+            g = lc.random_gate(rng, 2, "two")
+            return dict(g, a=q + g["a"], b=q + g["b"])
+
+        for step in range(3):
+            ops += [two(0), two(2), two(4), two(6)]          # even bonds of the brickwork + the side pair
+            ops += [two(1), two(3), two(6)]                  # odd bonds of the brickwork + the side pair again (an even bond)
+            for q in range(n):
+                ops.append({"op": "g1", "name": "rx", "q": q, "params": [rng.uniform(0.2, 1.5)]})
+        inputs.append({"kind": "sim", "spec": {"n": n, "init": "zeros", "ops": ops}, "num_traj": 1})
     for _ in range(n_traj):
         inputs.append({"kind": "ntraj", "spec": lc.random_circuit(rng, max_ops=10, p_marker=0.2),
                        "num_traj": rng.choice([2, 7, 100, 1000])})
